@@ -33,6 +33,7 @@ def body(led):
                    replay=replays.panel_matrix('kG0', model, y))
     py_panel.check_calc_kG0(led, replay=replays.panel_matrix('kG0', 'plate', False))
     py_panel.check_calc_kG0_state(led)
+    py_panel.check_one_laminate(led)
     from . import c03_num
     c03_num.body(led)
     ok, _ = K.compare(real('Nxx') * 2, real('Nxx'))
